@@ -41,6 +41,9 @@ def cases(tier):
                                 # the last right-orthonormal (what scalar * ortho_left() or sums of unit tensors look like)
                                 for gauge in ('left-but-first', 'right-but-last'):
                                     yield {'rows': list(rows), 'r': rk, 'c': c, 'fam': fam, 'idx': idx, 'scale': 1.0, 'gauge': gauge}
+                                if d >= 3:
+                                    # badly balanced representation: one interior core of magnitude 1e-12, compensated in the first core
+                                    yield {'rows': list(rows), 'r': rk, 'c': c, 'fam': fam, 'idx': idx, 'scale': 1.0, 'gauge': 'unbalanced'}
             if min(rows) >= 2:
                 for c in (False, True):
                     for idx in range(1, d):
@@ -115,6 +118,10 @@ def run_case(case, seed):
         cores0[-1] = 3.0 * cores0[-1]
         if d > 2:
             cores0[-1][:, 0, 0, 0] += 0.5
+    elif gauge == 'unbalanced':
+        j_ = d - 2
+        cores0[j_] = cores0[j_] * 1e-12
+        cores0[0] = cores0[0] * 1e12
     cores0[0] = cores0[0] * case.get('scale', 1.0)     # relative cuts must not depend on the scale of the tensor
     a = dn(tt_from(cores0)).reshape(rows)
     m = int(np.prod(rows[:idx])); n = int(np.prod(rows[idx:]))
